@@ -9,7 +9,7 @@ Top-level obligations (taken from the property statements):
 """
 import re
 
-from vf.extract import extract_item, extract_fn
+from vf.extract import extract_item, extract_fn, ExtractError
 from vf.unit import Unit, _find_all, unextend_iter
 
 PRELUDE = r'''
@@ -91,7 +91,13 @@ def build():
     u.assume('field laws used: commutativity of + and * (trait Field proof obligations on any implementor)')
     u.assume('ops entering the optimizer have the shape produced by Op::add/mul/bool_check/mul_add/horner_acc (wf_op): c is Some exactly for MulAdd/HornerAcc, HornerAcc carries its accumulator')
     u.text(PRELUDE.replace('@@TYPES@@', types_from_repo()))
-    u.text(SPEC.replace('@@SPEC_NEW_BODY@@', spec_twin_of_alukey_new()))
+    spec_ = SPEC.replace('@@SPEC_NEW_BODY@@', spec_twin_of_alukey_new())
+    # key_of = the key the code builds for an op.  A key TYPE without the accumulator component cannot carry it: key_of then is the key the type can hold, and
+    # lemma_same_key_same_relation (equal keys, same relation: where F1 lived) is the obligation that notices
+    ak_ = extract_item('circuit/src/builder/compiler/optimizer/analysis.rs', r'pub\(super\) struct AluKey\b')
+    if not re.search(r'\bacc\s*:', ak_):
+        spec_ = spec_.replace('AluKey { acc: oid(io), ..AluKey::spec_new(kind, a, b, c) }', 'AluKey::spec_new(kind, a, b, c)')
+    u.text(spec_)
 
     # ------------------------------------------------------------ WitnessId::resolve
     f = u.extract('circuit/src/types.rs', r'impl WitnessId', 'resolve', 'WitnessId::resolve')
@@ -133,15 +139,21 @@ def build():
     g.sig_rewrite('R12', '-> Self', '-> AluKey')
     g.rewrite_re('R12', r'\bSelf\s*\{', 'AluKey {')
     g.ensures('matches_spec_twin', 'ret == AluKey::spec_new(kind, a, b, c)')
-    h = u.extract(A, r'impl AluKey', 'with_acc', 'AluKey::with_acc')
-    h.sig_rewrite('R2', 'mut self', 'self')
-    h.sig_rewrite('R12', '-> Self', '-> AluKey')
-    h.rewrite('R2', 'self.acc = acc.map(|id| id.0); self', 'let mut self_ = self; self_.acc = acc.map(|id| id.0); self_')
-    h.annotate_closure('|id| id.0', 'id: WitnessId', 'r: u32', 'ensures r == id.0')
-    h.ensures('acc_recorded', 'ret == (AluKey { acc: oid(acc), ..self })')
+    # with_acc is under contract where it exists; a key type without it (and without the field) is judged through the contract of detect_duplicate: equal keys, same relation
+    try:
+        h = u.extract(A, r'impl AluKey', 'with_acc', 'AluKey::with_acc')
+    except ExtractError:
+        h = None
+    if h is not None:
+        h.sig_rewrite('R2', 'mut self', 'self')
+        h.sig_rewrite('R12', '-> Self', '-> AluKey')
+        h.rewrite('R2', 'self.acc = acc.map(|id| id.0); self', 'let mut self_ = self; self_.acc = acc.map(|id| id.0); self_')
+        h.annotate_closure('|id| id.0', 'id: WitnessId', 'r: u32', 'ensures r == id.0')
+        h.ensures('acc_recorded', 'ret == (AluKey { acc: oid(acc), ..self })')
     u.text('verus! {\nimpl AluKey {')
     u.emit(g)
-    u.emit(h)
+    if h is not None:
+        u.emit(h)
     u.text('}\n}')
 
     # ------------------------------------------------------------ Op::apply_witness_rewrite
@@ -208,8 +220,8 @@ def build():
     d = u.extract(D, r'impl Deduplicator', 'detect_duplicate', 'Deduplicator::detect_duplicate')
     d.sig_rewrite('R11', '<F: Field>', '<F>')
     cl = 'requires acyclic(self.rewrite@) ensures r == root(self.rewrite@, id)'
-    d.annotate_closure('|id| id.resolve(&self.rewrite)', 'id: WitnessId', 'r: WitnessId', cl, nth=1)
-    d.annotate_closure('|id| id.resolve(&self.rewrite)', 'id: WitnessId', 'r: WitnessId', cl, nth=0)
+    for nth_ in reversed(range(len(_find_all('|id| id.resolve(&self.rewrite)', d.body)))):      # every occurrence present
+        d.annotate_closure('|id| id.resolve(&self.rewrite)', 'id: WitnessId', 'r: WitnessId', cl, nth=nth_)
     d.rewrite('R1', 'if let Some(&canonical) = self.seen.get(&key) { Some((*out, canonical)) }',
               'if let Some(canonical) = self.seen.get(&key) { Some((*out, *canonical)) }')
     d.requires('acyclic', 'acyclic(old(self).rewrite@)')
